@@ -40,9 +40,12 @@ try:
             print('%s/%s APPLY-FAILED %s' % (pid, n, r.stderr.strip()[:200]), flush=True)
             missed.append('%s/%s' % (pid, n))
             continue
-        p = subprocess.run(['python3', os.path.join(VS, 'checks', pid.lower() + '.py'), 'quick'], stdout=subprocess.PIPE, stderr=subprocess.STDOUT, text=True, env=env)
+        # a change that the check of its own property cannot see but another check does (meta.caught_by) is run against that one
+        by = meta.get('caught_by') or [pid]
+        chk = pid if pid in by else by[0]
+        p = subprocess.run(['python3', os.path.join(VS, 'checks', chk.lower() + '.py'), 'quick'], stdout=subprocess.PIPE, stderr=subprocess.STDOUT, text=True, env=env)
         keys = [l.strip()[4:].split(' n=')[0] for l in p.stdout.split('\n') if l.strip().startswith('key=')]
-        print('%s/%s exit=%d %s' % (pid, n, p.returncode, keys[:2]), flush=True)
+        print('%s/%s%s exit=%d %s' % (pid, n, '' if chk == pid else ' (by %s)' % chk, p.returncode, keys[:2]), flush=True)
         if p.returncode != 1:
             missed.append('%s/%s' % (pid, n))
         subprocess.run(['git', '-C', S + '/repo', 'checkout', '--', '.'])
